@@ -117,4 +117,61 @@ Proof.
   split; [intros i text Hin; apply (H i text Hin) | intros i text Hin; apply (H i text Hin)].
 Qed.
 
+
+Lemma last_ind_in acc A ind : last_ind acc A = Some ind ->
+  acc = Some ind \/ exists s e r, In (Trivia s ind e r) A.
+Proof.
+  revert acc. induction A as [|c A IH]; intros acc H; [left; exact H|].
+  destruct c as [s i e [|t r] | j text]; cbn [last_ind] in H.
+  - destruct (IH _ H) as [Ha|(s' & e' & r' & Hin)]; [left; exact Ha | right; exists s', e', r'; right; exact Hin].
+  - destruct (IH _ H) as [Ha|(s' & e' & r' & Hin)]; [injection Ha as ->; right; exists s, e, (t :: r); left; reflexivity | right; exists s', e', r'; right; exact Hin].
+  - destruct (IH _ H) as [Ha|(s' & e' & r' & Hin)]; [left; exact Ha | right; exists s', e', r'; right; exact Hin].
+Qed.
+
+(* ------------------------------------------------------------------ whole programs *)
+(* the chunk list of the writer on a parser tree inside the domain, with everything the chunk-level theorems ask for *)
+Theorem program_chunks root e :
+  lua_parse ts = Ok (root, e) -> consumed ts e = true -> writable ts root = true -> codes_tidy ts = true ->
+  exists cs, writer_chunks ts (view root) = Ok (cs, len) /\ codes_of cs = sig_codes ts 0 /\ tiling ts 0 cs len /\
+             separated cs /\ codes_ok cs /\
+             (forall i text, In (Code i text) cs -> has_sp_nl text = false /\ has3nl text = false) /\
+             (forall A i text B, cs = A ++ Code i text :: B -> no_end A) /\
+             Forall (ind_ge 0) cs.
+Proof.
+  intros Hp Hc Hw Ht. destruct (writer_aligned_good ts root e Hp Hc Hw) as (cs & Hcs & Hcodes & Htil & Hgood).
+  destruct (tidy_codes cs Ht Hcodes) as [Hok Hflat].
+  exists cs. split; [exact Hcs|]. split; [exact Hcodes|]. split; [exact Htil|].
+  split; [eapply tiling_separated; eassumption|]. split; [exact Hok|]. split; [exact Hflat|].
+  split; [intros A i text B ->; eapply tiling_no_end; exact Htil | exact (writer_indent_balanced ts _ _ _ Hcs)].
+Qed.
+
+(* no line of the formatted program ends in a blank, never two blank lines in a row *)
+Theorem program_shape w root e :
+  lua_parse ts = Ok (root, e) -> consumed ts e = true -> writable ts root = true -> codes_tidy ts = true ->
+  exists out, writer_text (fmt_spaces w) ts (view root) = Ok out /\ has_sp_nl out = false /\ has3nl out = false.
+Proof.
+  intros Hp Hc Hw Ht. destruct (program_chunks root e Hp Hc Hw Ht) as (cs & Hcs & _ & _ & Hsep & Hok & Hflat & _).
+  exists (chunks_text (fmt_spaces w) cs). split; [unfold writer_text; rewrite Hcs; reflexivity|].
+  exact (chunks_shape w cs Hsep Hok Hflat).
+Qed.
+
+(* a code token that begins a line is indented by indentwidth x the writer's nesting counter (>= 0) at the
+   white-space run before it *)
+Theorem program_indent_counter w root e :
+  lua_parse ts = Ok (root, e) -> consumed ts e = true -> writable ts root = true -> codes_tidy ts = true ->
+  exists cs, writer_text (fmt_spaces w) ts (view root) = Ok (chunks_text (fmt_spaces w) cs) /\ codes_of cs = sig_codes ts 0 /\
+    forall A i text B p q, cs = A ++ Code i text :: B ->
+      chunks_text (fmt_spaces w) A = p ++ NL :: q -> noNL q -> forallb is_sp q = true ->
+      exists ind, last_ind None A = Some ind /\ 0 <= ind /\ q = repeat SP (Z.to_nat w * Z.to_nat ind).
+Proof.
+  intros Hp Hc Hw Ht. destruct (program_chunks root e Hp Hc Hw Ht) as (cs & Hcs & Hcodes & _ & Hsep & Hok & _ & Hne & Hind).
+  exists cs. split; [unfold writer_text; rewrite Hcs; reflexivity|]. split; [exact Hcodes|].
+  intros A i text B p q HA Htxt Hq Hsp.
+  destruct (chunks_token_indent w cs A i text B p q HA Hsep Hok (Hne A i text B HA) Htxt Hq Hsp) as (ind & Hl & Hqq).
+  exists ind. split; [exact Hl|]. split; [|exact Hqq].
+  destruct (last_ind_in _ _ _ Hl) as [Hx|(s0 & e0 & r0 & Hin)]; [discriminate Hx|].
+  rewrite Forall_forall in Hind. specialize (Hind (Trivia s0 ind e0 r0)). cbn [ind_ge] in Hind. apply Hind.
+  rewrite HA. apply in_or_app. left. exact Hin.
+Qed.
+
 End L.
